@@ -47,6 +47,37 @@ pub struct World<T: HCfg> {
     pub detail: u8,
 }
 
+/// Snapshots carry inputs as their bytes; project them to the abstract values of the plans
+/// (identity for one-byte inputs).
+fn project_inputs(width: usize, mut v: Value) -> Value {
+    fn walk(width: usize, v: &mut Value) {
+        match v {
+            Value::Object(m) => {
+                for (k, x) in m.iter_mut() {
+                    if k == "pred_input" || k == "newest_input" {
+                        if let Some(a) = x.as_array() {
+                            let bytes: Vec<u8> = a.iter().map(|b| b.as_u64().unwrap_or(0) as u8).collect();
+                            *x = json!(crate::dec_frame(width, &bytes));
+                        }
+                    } else {
+                        walk(width, x);
+                    }
+                }
+            }
+            Value::Array(a) => {
+                for x in a.iter_mut() {
+                    walk(width, x);
+                }
+            }
+            _ => {}
+        }
+    }
+    if width > 1 {
+        walk(width, &mut v);
+    }
+    v
+}
+
 fn cfg_u(c: &Value, k: &str, d: u64) -> u64 {
     c.get(k).and_then(|v| v.as_u64()).unwrap_or(d)
 }
@@ -61,6 +92,7 @@ impl<T: HCfg> World<T> {
     pub fn new(cfg: &Value, detail: u8) -> Result<Self, String> {
         instant::verif_set_ms(1_000_000);
         let net = Rc::new(RefCell::new(Net::default()));
+        net.borrow_mut().width = T::WIDTH;
         let players = cfg_u(cfg, "players", 2) as usize;
         let window = cfg_u(cfg, "window", 8) as usize;
         let sparse = cfg_b(cfg, "sparse", false);
@@ -158,14 +190,14 @@ impl<T: HCfg> World<T> {
                             .add_player(PlayerType::Spectator(j as Addr), sh)
                             .map_err(|e| e.to_string())?;
                         sh += 1;
-                        net.borrow_mut().frame_bytes.insert((me, j as Addr), players);
+                        net.borrow_mut().frame_bytes.insert((me, j as Addr), players * T::WIDTH);
                     }
                 }
                 for (j, qc) in peers_cfg.iter().enumerate() {
                     if qc["kind"] == "p2p" && j != i {
                         net.borrow_mut()
                             .frame_bytes
-                            .insert((me, j as Addr), locals.len());
+                            .insert((me, j as Addr), locals.len() * T::WIDTH);
                     }
                 }
                 let sess = b.start_p2p_session(sock).map_err(|e| e.to_string())?;
@@ -328,7 +360,7 @@ impl<T: HCfg> World<T> {
                         json!(snap.outgoing.iter().map(|(f, _)| *f).collect::<Vec<_>>()),
                     );
                     if self.detail >= 2 {
-                        line.insert("sn".into(), serde_json::to_value(&snap).unwrap());
+                        line.insert("sn".into(), project_inputs(T::WIDTH, serde_json::to_value(&snap).unwrap()));
                     }
                 }
             }
@@ -346,7 +378,7 @@ impl<T: HCfg> World<T> {
                     json!((0..snap.num_players).map(|_| json!([false, cur - 1 + d])).collect::<Vec<_>>()),
                 );
                 if self.detail >= 2 {
-                    line.insert("sn".into(), serde_json::to_value(&snap).unwrap());
+                    line.insert("sn".into(), project_inputs(T::WIDTH, serde_json::to_value(&snap).unwrap()));
                 }
             }
             Sess::Spec(s) => {
@@ -368,7 +400,7 @@ impl<T: HCfg> World<T> {
                         .collect::<Vec<_>>()),
                 );
                 if self.detail >= 2 {
-                    line.insert("sn".into(), serde_json::to_value(&snap).unwrap());
+                    line.insert("sn".into(), project_inputs(T::WIDTH, serde_json::to_value(&snap).unwrap()));
                 }
             }
         }
@@ -572,7 +604,7 @@ impl<T: HCfg> World<T> {
                 );
                 let mut adds = Vec::new();
                 for (h, v) in &ins {
-                    let r = catch_unwind(AssertUnwindSafe(|| sess.add_local_input(*h, *v)));
+                    let r = catch_unwind(AssertUnwindSafe(|| sess.add_local_input(*h, T::enc(*v))));
                     adds.push(match r {
                         Ok(Ok(())) => "ok".to_string(),
                         Ok(Err(e)) => err_code(&e),
@@ -685,7 +717,7 @@ impl<T: HCfg> World<T> {
                 line.insert("in".into(), s["in"].clone());
                 let mut adds = Vec::new();
                 for (h, v) in &ins {
-                    adds.push(match sess.add_local_input(*h, *v) {
+                    adds.push(match sess.add_local_input(*h, T::enc(*v)) {
                         Ok(()) => "ok".to_string(),
                         Err(e) => err_code(&e),
                     });
